@@ -66,7 +66,7 @@ def run(tier, seed):
         for t in full: tasks.append((t, cfgs, 'git'))
         for t in few: tasks.append((t, few_cfgs, 'git'))
         other = corpus + [x for x in crafted if x['src'].endswith('empty_source_vs_edit')][:n_other] + [x for x in gen if K.has_text_conflict(x)][:n_other]
-        for mode in ('diff3', 'none'):
+        for mode in ('diff3', 'diff', 'none'):
             for t in other: tasks.append((t, cfgs, mode))
         results = K.run_merge_tasks(sb, tasks)
         # ---- judge
